@@ -67,9 +67,28 @@ def nostd_shape(fb, t, env):
     for n, v in env.items(): e = subst(e, n, v)
     e = fold(e)
     X = ('var', ['x'])
-    if not (e[0] == 'if' and e[1][0] == 'cmp' and e[1][1] == '>=' and e[1][2] == X and e[1][3][0] == 'lit' and float(e[1][3][1]) == 0.0 and '.' in e[1][3][1]):
-        raise TranslationError('guard is not `x >= 0.0`')
-    if e[3] != ('var', [t, 'NAN']): raise TranslationError('the other branch is not %s::NAN' % t)
+    # the guard as a decision tree over the four classes of a float (NaN, < 0, +-0, > 0): whatever mixture of
+    # `x >= 0.0`, `x < 0.0`, `x.is_nan()`, `x != x`, `!`, `||`, `&&`, early returns it is written with, NaN and negative
+    # inputs must reach `T::NAN` and zero and positive inputs one and the same bit-pattern expression
+    def zero_lit(v): return v[0] == 'lit' and '.' in v[1] and float(v[1]) == 0.0
+    def truth(c, cls):
+        nan, neg, zero, pos = (cls == 'nan'), (cls == 'neg'), (cls == 'zero'), (cls == 'pos')
+        if c[0] == 'method' and c[1] == 'is_nan' and c[2] == X and c[3] == []: return nan
+        if c[0] == 'cmp':
+            op, l, r = c[1], c[2], c[3]
+            if l == X and r == X: return {'==': not nan, '!=': nan, '<=': not nan, '>=': not nan, '<': False, '>': False}[op]
+            if r == X and zero_lit(l): op, l, r = {'<': '>', '>': '<', '<=': '>=', '>=': '<=', '==': '==', '!=': '!='}[op], r, l
+            if l == X and zero_lit(r):
+                return {'>=': zero or pos, '>': pos, '<=': neg or zero, '<': neg, '==': zero, '!=': not zero}[op]
+        raise TranslationError('guard condition not understood: %r' % (c,))
+    def leaf(t_, cls):
+        while t_[0] == 'if': t_ = t_[2] if truth(t_[1], cls) else t_[3]
+        return t_
+    if e[0] != 'if': raise TranslationError('no guard (`x >= 0.0` or an equivalent)')
+    for cls in ('nan', 'neg'):
+        if leaf(e, cls) != ('var', [t, 'NAN']): raise TranslationError('a %s input does not reach %s::NAN' % ({'nan': 'NaN', 'neg': 'negative'}[cls], t))
+    if leaf(e, 'zero') != leaf(e, 'pos'): raise TranslationError('zero and positive inputs take different expressions')
+    e = ('if', None, leaf(e, 'pos'), None)
     a = e[2]
     if not (a[0] == 'call' and a[1] == [t, 'from_bits']): raise TranslationError('result is not %s::from_bits(..)' % t)
     b = a[2]
